@@ -532,6 +532,54 @@ pub open spec fn feat_help() -> bool { %s }
 '''
 
 
+def module_deps(name, src_dir=None):
+    """modules of the crate that module `name` mentions (source text and annotations)"""
+    src_dir = src_dir or REPO_SRC
+    texts = []
+    if name in template.TEMPLATES:
+        p = template.source_path(name, src_dir)
+    else:
+        p = os.path.join(src_dir, name + '.rs')
+    for q in (p, os.path.join(VERIF, 'annot', name + '.rs')):
+        if os.path.exists(q):
+            texts.append(open(q).read())
+    found = set()
+    for t in texts:
+        for m in re.finditer(r'\b(?:crate|_cli)::(\w+)', t):
+            found.add(m.group(1))
+        for m in re.finditer(r'use crate::\{(.*?)\};', t, re.S):
+            depth = 0
+            cur = ''
+            for ch in m.group(1):
+                if ch == '{':
+                    depth += 1
+                elif ch == '}':
+                    depth -= 1
+                elif depth == 0:
+                    cur += ch
+                    continue
+                if depth == 1 and ch == '{':
+                    cur += ' '
+            for part in cur.split(','):
+                w = re.match(r'\s*(\w+)', part)
+                if w:
+                    found.add(w.group(1))
+    return set(x for x in found if x in MODULES and x != name)
+
+
+def closure(modules, src_dir=None):
+    """the given modules plus everything they (transitively) mention"""
+    todo = list(modules)
+    seen = []
+    while todo:
+        m = todo.pop()
+        if m in seen or m not in MODULES:
+            continue
+        seen.append(m)
+        todo += list(module_deps(m, src_dir))
+    return [m for m in MODULES if m in seen]
+
+
 def build(features=ALL_FEATURES, modules=None, src_dir=None):
     """-> (mirror_text, linemap, info)"""
     log = []
